@@ -20,11 +20,25 @@
    * Every C loop is a [while] with the C's condition and body.  [while]
      takes fuel; running out of fuel is the explicit result [OutOfFuel]
      (the theorems prove it never happens, they do not assume it).
-   * a_uint / a_size are modelled by [nat]: in the C no counter ever exceeds
-     max(m,n) <= UINT_MAX and every (a_size) product is an index into an
-     existing array, so no wrap can occur for arrays that exist; the
+   * INTEGER WIDTHS.  Values are carried in [nat], but every integer
+     expression from which the C computes an array offset is evaluated with
+     the C's type after the usual arithmetic conversions: [u32_add] is
+     a_uint + a_uint (32 bit, wraps mod 2^32); [sz_add] / [sz_mul] are a_size
+     (64 bit, wrap mod 2^64); `(a_size)x` of an a_uint is value preserving.
+     Sites: (a_size)n * r, (a_size)n * c (T1); (a_size)m * c, (a_size)n * r,
+     mc + r, nr + c (T2); N = (a_size)n + 1 and N * r, N * i (diag, diag1,
+     diag2); (a_size)row * col, (a_size)col * c_r (products); c = r + 1 (T1).
+     The wrap is computed through binary [N] so it stays executable; the
+     theorems assume only that the dimensions are a_uint values (< 2^32) and
+     PROVE that none of these computations wraps (LinalgLemmas: sz_mul_id ...).
+     Pointer arithmetic ( *E++, A += n, x_ = x + c_r, Ac[r], ... ) is an offset
+     in elements from the array start ([nat], no wrap: C pointer arithmetic
+     inside an existing array).  Loop counters (++r, ++c) are bounded by their
+     loop guard (c < n with n an a_uint), see [u32_inc_id].  The
      post-decrement `row--` is modelled as "test row != 0, then row - 1"
      (the final wrap to UINT_MAX is dead).
+     Huge, sparsely touched arrays (diag1/diag2 around the 2^32-cell boundary)
+     are run through the N-indexed variant in LinalgWide.v.
    * `while (++c < n) body`  is modelled as  `c := c+1; while (c < n) { body; c := c+1 }`.
    * Where the C repeats a row body verbatim in the square and the
      rectangular routine (eye1/eye2, tri1/tri2, triL/triL2, triU/triU2) the
@@ -62,6 +76,14 @@ Fixpoint while {S : Type} (fuel : nat) (cond : S -> bool) (body : S -> res S) (s
     | S f => s' <- body s ;; while f cond body s'
     end
   else Ok s.
+
+(* C integer arithmetic on the values carried in nat (computed through binary N:
+   executable without ever building 2^32 in unary) *)
+Definition wrap32 (x : nat) : nat := N.to_nat (N.modulo (N.of_nat x) 4294967296%N).
+Definition wrap64 (x : nat) : nat := N.to_nat (N.modulo (N.of_nat x) 18446744073709551616%N).
+Definition u32_add (a b : nat) : nat := wrap32 (a + b).    (* a_uint + a_uint *)
+Definition sz_add (a b : nat) : nat := wrap64 (a + b).     (* a_size + a_size *)
+Definition sz_mul (a b : nat) : nat := wrap64 (a * b).     (* a_size * a_size *)
 
 (* A_MIN(x, y) = (((x) < (y)) ? (x) : (y)) *)
 Definition amin (x y : nat) : nat := if x <? y then x else y.
@@ -108,8 +130,8 @@ Section Model.
   (* ------------------------------------------------------------ T1 *)
   Definition T1_inner (n r : nat) (s : nat * buf) : res (nat * buf) :=
     let '(c, A) := s in
-    let Ar := n * r in
-    let Ac := n * c in
+    let Ar := sz_mul n r in                    (* A + (a_size)n * r *)
+    let Ac := sz_mul n c in                    (* A + (a_size)n * c *)
     value <- load (cells A) (Ac + r) ;;        (* value = Ac[r]   *)
     t <- load (cells A) (Ar + c) ;;
     A <- store (Ac + r) t A ;;                 (* Ac[r] = Ar[c]   *)
@@ -118,7 +140,7 @@ Section Model.
 
   Definition T1_row (n : nat) (s : nat * buf) : res (nat * buf) :=
     let '(r, A) := s in
-    '(_, A) <- while n (fun '(c, _) => c <? n) (T1_inner n r) (r + 1, A) ;;
+    '(_, A) <- while n (fun '(c, _) => c <? n) (T1_inner n r) (u32_add r 1, A) ;;   (* c = r + 1 *)
     Ok (S r, A).
 
   Definition T1 (n : nat) (A : buf) : res buf :=
@@ -128,10 +150,10 @@ Section Model.
   (* ------------------------------------------------------------ T2 *)
   Definition T2_inner (m n c : nat) (A : list T) (s : nat * buf) : res (nat * buf) :=
     let '(r, Tb) := s in
-    let mc := m * c in
-    let nr := n * r in
-    v <- load A (nr + c) ;;
-    Tb <- store (mc + r) v Tb ;;               (* T[mc + r] = A[nr + c] *)
+    let mc := sz_mul m c in                    (* (a_size)m * c *)
+    let nr := sz_mul n r in                    (* (a_size)n * r *)
+    v <- load A (sz_add nr c) ;;
+    Tb <- store (sz_add mc r) v Tb ;;               (* T[mc + r] = A[nr + c] *)
     Ok (S r, Tb).
 
   Definition T2_col (m n : nat) (A : list T) (s : nat * buf) : res (nat * buf) :=
@@ -189,9 +211,9 @@ Section Model.
   (* ------------------------------------------- diag, diag1, diag2 *)
   Definition diag_set (n : nat) (a : list T) (s : nat * buf) : res (nat * buf) :=
     let '(r, b) := s in
-    let N := n + 1 in
+    let N := sz_add n 1 in                     (* a_size const N = (a_size)n + 1 *)
     v <- load a r ;;
-    b <- store (N * r) v b ;;                  (* A[N * r] = a[r] *)
+    b <- store (sz_mul N r) v b ;;                  (* A[N * r] = a[r] *)
     Ok (S r, b).
 
   (* A[c] = 0 with A the moving row pointer (offset Ap) *)
@@ -213,8 +235,8 @@ Section Model.
 
   Definition diag_get (n : nat) (A : list T) (s : nat * buf) : res (nat * buf) :=
     let '(i, b) := s in
-    let N := n + 1 in
-    v <- load A (N * i) ;;
+    let N := sz_add n 1 in                     (* a_size const N = (a_size)n + 1 *)
+    v <- load A (sz_mul N i) ;;
     b <- store i v b ;;                        (* a[i] = A[N * i] *)
     Ok (S i, b).
 
@@ -342,7 +364,7 @@ Section Model.
     Ok (row, x, z, z, b).                      (* Z = z *)
 
   Definition mulmm (row c_r col : nat) (X Y : list T) (b : buf) : res buf :=
-    let z_ := row * col in
+    let z_ := sz_mul row col in                (* Z + (a_size)row * col *)
     '(z, b) <- zero_out z_ b ;;
     '(_, _, _, _, b) <- while row (fun '(row, _, _, _, _) => negb (row =? 0))
                           (mulmm_i c_r col X Y) (row, 0, z, 0, b) ;;        (* x = X *)
@@ -370,7 +392,7 @@ Section Model.
     Ok (c_r, x, y, z, y_, b).                  (* Y = y_ *)
 
   Definition mulTm (c_r row col : nat) (X Y : list T) (b : buf) : res buf :=
-    let z_ := row * col in
+    let z_ := sz_mul row col in                (* Z + (a_size)row * col *)
     '(z, b) <- zero_out z_ b ;;
     '(_, _, _, _, _, b) <- while c_r (fun '(c_r, _, _, _, _, _) => negb (c_r =? 0))
                              (mulTm_k row col X Y) (c_r, 0, 0, z, 0, b) ;;
@@ -397,8 +419,8 @@ Section Model.
     Ok (row, x, y, z, x_, b).                  (* X = x_ *)
 
   Definition mulmT (row col c_r : nat) (X Y : list T) (b : buf) : res buf :=
-    let y_ := col * c_r in
-    let z_ := row * col in
+    let y_ := sz_mul col c_r in                (* Y + (a_size)col * c_r *)
+    let z_ := sz_mul row col in                (* Z + (a_size)row * col *)
     '(_, b) <- zero_out z_ b ;;
     '(_, _, _, _, _, b) <- while row (fun '(row, _, _, _, _, _) => negb (row =? 0))
                              (mulmT_i col c_r X Y y_) (row, 0, 0, 0, 0, b) ;;   (* z = Z *)
@@ -426,8 +448,8 @@ Section Model.
 
   Definition mulTT (row c_r col : nat) (X Y : list T) (b : buf) : res buf :=
     let n := c_r in
-    let y_ := col * c_r in
-    let z_ := row * col in
+    let y_ := sz_mul col c_r in                (* Y + (a_size)col * c_r *)
+    let z_ := sz_mul row col in                (* Z + (a_size)row * col *)
     '(z, b) <- zero_out z_ b ;;
     '(_, _, _, _, _, b) <- while c_r (fun '(c_r, _, _, _, _, _) => negb (c_r =? 0))
                              (mulTT_k n row col X Y y_) (c_r, 0, 0, z, 0, b) ;;
